@@ -41,6 +41,10 @@ def corpus(rng):
         "bad-warc": b"WARC/1.0\r\nContent-Length: 99999999999999999999\r\n\r\nxx", "warc-neg": b"WARC/1.0\r\nContent-Length: -1\r\n\r\n\r\n\r\n",
         "warc-huge": b"WARC/1.0\r\nContent-Length: 9223372036854775807\r\n\r\n", "warc-trunc": b"WARC/1.0\r\nContent-Le",
         "binary": bytes(rng.randrange(256) for _ in range(5000)),
+        # base64 with more '=' than padding needs, short and long, after a longer document
+        "b64-overpadded": b"dzAw=\nd29yZHM==\nQUI===\n" + base64.b64encode(b"y" * 300) + b"\n" + b"QUJD" * 100 + b"=" * 400 + b"\nQUJD====\n",
+        "b64-overpadded-big": base64.b64encode(b"z" * 30000).rstrip(b"=") + b"=" * 20000 + b"\n" + b"QUJD\n",
+        "b64-glued": b"QUI=QUJD\nYcOpw6nDqQ==\nQcM=QUJD\n4oKseHl6\nQcM=QUJD\n",
         "gz-trunc": gzip.compress(b"hello world\n" * 1000)[:200], "gz-empty": gzip.compress(b""), "gz-corrupt": gzip.compress(b"abc\n" * 500)[:40] + b"\xff" * 40,
         "bz2-trunc": bz2.compress(b"hello world\n" * 1000)[:60], "bz2-corrupt": bz2.compress(b"abc\n" * 500)[:30] + b"\x00" * 50,
         "xz-trunc": lzma.compress(b"hello world\n" * 1000)[:80], "gz-then-junk": gzip.compress(b"a\n") + b"junk after member\n",
@@ -83,7 +87,7 @@ def run(ctx):
     names = sorted(cps)
     n_ok = 0
     for (tool, args) in T:
-        picks = names if ctx.tier != "quick" else rng.sample(names, 9) + ["empty", "invalid-utf8", "bz2-trunc", "gz-empty"] + ([n for n in names if "warc" in n] if tool.startswith("warc") else [])
+        picks = names if ctx.tier != "quick" else rng.sample(names, 9) + ["empty", "invalid-utf8", "bz2-trunc", "gz-empty"] + ([n for n in names if "warc" in n] if tool.startswith("warc") else []) + ([n for n in names if "b64" in n] if tool in ("docenc", "base64_number", "b64filter", "remove_invalid_utf8_base64") else [])
         for nm in dict.fromkeys(picks):
             data = cps[nm]
             st, out, err = pvlib.run_tool([ctx.bin(tool)] + args, data, env=pvlib.san_env(), timeout=12 if ctx.tier == "quick" else 40)
